@@ -349,6 +349,90 @@ theorem idxOf_nth : ∀ {names : List Str} {i : Nat}, nodupB names = true → i 
 theorem dtParseCode_nil : Scalar.dtParseCode [] = none := by
   simp [Scalar.dtParseCode, Scalar.units]
 
+/-! ### sets of strings -/
+
+theorem char_eq_of_toNat {a b : Char} (h : a.toNat = b.toNat) : a = b := by
+  have ha := Char.ofNat_toNat a
+  have hb := Char.ofNat_toNat b
+  rw [← ha, ← hb, h]
+
+/-- the order is total: two different strings are comparable one way or the other -/
+theorem ltStr_total : ∀ (x y : Str), ltStr x y = false → ¬ x = y → ltStr y x = true
+  | [], [], _, hne => absurd rfl hne
+  | [], _ :: _, h, _ => by simp [ltStr] at h
+  | _ :: _, [], _, _ => by simp [ltStr]
+  | a :: as, b :: bs, h, hne => by
+    simp only [ltStr, Bool.or_eq_false_iff, decide_eq_false_iff_not, Bool.and_eq_false_imp, beq_iff_eq] at h
+    simp only [ltStr, Bool.or_eq_true, decide_eq_true_eq, Bool.and_eq_true, beq_iff_eq]
+    by_cases hab : a.toNat = b.toNat
+    · right
+      refine ⟨hab.symm, ?_⟩
+      have hc : a = b := char_eq_of_toNat hab
+      apply ltStr_total as bs (h.2 hab)
+      intro e
+      apply hne
+      rw [hc, e]
+    · left; omega
+
+theorem sortedB_cons_insert : ∀ (l : List Str) (x y : Str), sortedB (y :: l) = true → ltStr y x = true →
+    sortedB (y :: insertSet x l) = true
+  | [], x, y, _, hyx => by simp [insertSet, sortedB, hyx]
+  | z :: zs, x, y, hs, hyx => by
+    simp only [sortedB, Bool.and_eq_true] at hs
+    simp only [insertSet]
+    split
+    · rename_i hxz
+      simp [sortedB, hyx, hxz, hs.2]
+    · rename_i hxz
+      split
+      · simp [sortedB, hs.1, hs.2]
+      · rename_i hne
+        have hzx : ltStr z x = true := ltStr_total x z (by simpa using hxz) (by simpa using hne)
+        simp only [sortedB, Bool.and_eq_true]
+        exact ⟨hs.1, sortedB_cons_insert zs x z hs.2 hzx⟩
+
+theorem sortedB_insertSet (x : Str) : ∀ (l : List Str), sortedB l = true → sortedB (insertSet x l) = true
+  | [], _ => by simp [insertSet, sortedB]
+  | z :: zs, hs => by
+    simp only [insertSet]
+    split
+    · rename_i hxz; simp [sortedB, hxz, hs]
+    · rename_i hxz
+      split
+      · exact hs
+      · rename_i hne
+        exact sortedB_cons_insert zs x z hs (ltStr_total x z (by simpa using hxz) (by simpa using hne))
+
+theorem sortedB_mkSet : ∀ (l : List Str), sortedB (mkSet l) = true
+  | [] => rfl
+  | x :: l => by
+    have := sortedB_insertSet x (mkSet l) (sortedB_mkSet l)
+    simpa [mkSet] using this
+
+theorem sortedB_tail {x : Str} {l : List Str} (h : sortedB (x :: l) = true) : sortedB l = true := by
+  cases l with
+  | nil => rfl
+  | cons y r => simp only [sortedB, Bool.and_eq_true] at h; exact h.2
+
+/-- a canonical (strictly increasing) list is its own set -/
+theorem mkSet_of_sorted : ∀ (l : List Str), sortedB l = true → mkSet l = l
+  | [], _ => rfl
+  | x :: l, h => by
+    have ih := mkSet_of_sorted l (sortedB_tail h)
+    have e : mkSet (x :: l) = insertSet x (mkSet l) := rfl
+    rw [e, ih]
+    cases l with
+    | nil => rfl
+    | cons y r =>
+      simp only [sortedB, Bool.and_eq_true] at h
+      simp [insertSet, h.1]
+
+theorem map_str_getStr : ∀ (items : List Val), items.all Val.isStr = true → (items.map Val.getStr).map Val.str = items
+  | [], _ => rfl
+  | it :: items, h => by
+    simp only [List.all_cons, Bool.and_eq_true] at h
+    cases it <;> simp_all [Val.isStr, Val.getStr, map_str_getStr items]
+
 /-! ### scalar types -/
 
 theorem FTy.canon_parse (ty : FTy) (s : Str) : ty.canon (ty.parse s) = true := by
@@ -691,6 +775,9 @@ theorem encF_attrs (f : Field) (v : Val) : ∀ kv ∈ (encF f v).1, f.writes kv.
   | many hd fs ne =>
     simp only [encF] at h
     split at h <;> simp at h
+  | strSet hd =>
+    simp only [encF] at h
+    split at h <;> simp at h
 
 theorem encFs_attrs : ∀ (fs : List Field) (vs : List Val),
     ∀ kv ∈ (encFs fs vs).1, ∃ f ∈ fs, f.writes kv.1 = true
@@ -838,6 +925,17 @@ theorem encF_kids (pns : Str) (f : Field) (v : Val) (hw : wfF pns f = true) (hc 
       rw [nsOf_mk' hd pns _ (encFs fs it.recVals).2 hw.1.1 (mk_no_xmlns hw.1.2 it.recVals hw.2)]
       simp [Field.heads, Head.mk', Node.isElem, Node.name]
     · simp at hk
+  | strSet hd =>
+    right
+    simp only [wfF, Bool.and_eq_true] at hw
+    simp only [encF] at hk
+    split at hk
+    · rename_i items
+      simp only [List.mem_map] at hk
+      obtain ⟨it, _, rfl⟩ := hk
+      rw [nsOf_mk' hd pns _ _ hw.1 (by simpa using extra_no_xmlns hw.2)]
+      simp [Field.heads, Head.mk', Node.isElem, Node.name]
+    · simp at hk
 
 /-! ### independence of fields -/
 
@@ -929,6 +1027,19 @@ theorem indep_sees (pns : Str) (f g : Field) (v : Val) (hi : indep f g = true)
         (fun hd => (h.anyTag || hd.1 == h.tag) && (h.anyNs || hd.2 == h.ns)) hall k hk
       simp only [Field.sees, Head.matches, this.1, Bool.true_and]
       exact this.2
+  | strSet h =>
+    cases hgt : g.isText with
+    | true =>
+      rcases encF_kids pns g v hwg hcg k hk with h' | h'
+      · simp [Field.sees, Head.matches, h'.2]
+      · cases g <;> simp_all [Field.isText, Field.heads]
+    | false =>
+      have hall : g.heads.all (fun hd => !((h.anyTag || hd.1 == h.tag) && (h.anyNs || hd.2 == h.ns))) = true := by
+        cases g <;> simp_all [indep, Field.isText]
+      have := heads_all_sees pns g v hwg hcg hgt
+        (fun hd => (h.anyTag || hd.1 == h.tag) && (h.anyNs || hd.2 == h.ns)) hall k hk
+      simp only [Field.sees, Head.matches, this.1, Bool.true_and]
+      exact this.2
 
 theorem encFs_sees (pns : Str) (f : Field) : ∀ (fs : List Field) (vs : List Val),
     wfFs pns fs = true → canonFs fs vs = true → (∀ g ∈ fs, indep f g = true) →
@@ -945,12 +1056,12 @@ theorem encFs_sees (pns : Str) (f : Field) : ∀ (fs : List Field) (vs : List Va
 
 /-! ### guarded wrappers -/
 
-theorem guardEmpty_of_empty : ∀ (n : Nat) (fs : List Field) (vs : List Val),
+theorem guardEmpty_of_empty : ∀ (n : List Bool) (fs : List Field) (vs : List Val),
     encFs fs vs = ([], []) → guardEmpty n fs vs = true
-  | 0, _, _, _ => by simp [guardEmpty]
-  | _ + 1, [], _, _ => by simp [guardEmpty]
-  | _ + 1, _ :: _, [], _ => by simp [guardEmpty]
-  | n + 1, f :: fs, v :: vs, h => by
+  | [], _, _, _ => by simp [guardEmpty]
+  | _ :: _, [], _, _ => by simp [guardEmpty]
+  | _ :: _, _ :: _, [], _ => by simp [guardEmpty]
+  | _ :: n, f :: fs, v :: vs, h => by
     simp only [encFs, Prod.mk.injEq, List.append_eq_nil_iff] at h
     have ih := guardEmpty_of_empty n fs vs (Prod.ext h.1.2 h.2.2)
     simp [guardEmpty, h.1.1, h.2.1, ih]
@@ -958,8 +1069,8 @@ theorem guardEmpty_of_empty : ∀ (n : Nat) (fs : List Field) (vs : List Val),
 theorem beq_optional_optional : (ChildMode.optional == ChildMode.optional) = true := rfl
 theorem beq_wrapOmit_optional : (ChildMode.wrapOmit == ChildMode.optional) = false := rfl
 theorem beq_wrapOmit_wrapOmit : (ChildMode.wrapOmit == ChildMode.wrapOmit) = true := rfl
-theorem beq_wrapGuard_optional (n : Nat) : (ChildMode.wrapGuard n == ChildMode.optional) = false := rfl
-theorem beq_wrapGuard_wrapOmit (n : Nat) : (ChildMode.wrapGuard n == ChildMode.wrapOmit) = false := rfl
+theorem beq_wrapGuard_optional (n : List Bool) : (ChildMode.wrapGuard n == ChildMode.optional) = false := rfl
+theorem beq_wrapGuard_wrapOmit (n : List Bool) : (ChildMode.wrapGuard n == ChildMode.wrapOmit) = false := rfl
 
 theorem attr_nil (k : Str) : attr [] k = [] := by simp [attr]
 
@@ -979,6 +1090,7 @@ theorem encF_null_quiet : ∀ (f : Field) (pns : Str), quietF f = true →
   | .enumChild .., _, _ => by simp [decF, encF, nullNode, Node.kids]
   | .tagChild .., _, _ => by simp [decF, encF, nullNode, Node.kids, pickChild_nil, Val.tagParts]
   | .many .., _, _ => by simp [decF, encF, nullNode, Node.kids]
+  | .strSet .., _, _ => by simp [decF, encF, nullNode, Node.kids, mkSet]
   | .child hd fs mode, pns, h => by
     simp only [decF, nullNode, Node.kids, pickChild_nil, Option.filter_none]
     cases mode with
@@ -1192,6 +1304,28 @@ theorem decF_encF : ∀ (f : Field) (pns t : Str) (P R : List (Str × Str)) (Q S
           simpa [Head.mk'] using congrArg Val.record this
         | _ => simp at hit
     | _ => simp [canonF] at hc
+  | .strSet h, pns, t, P, R, Q, S, v, hw, hc, _, _, hQ, hS => by
+    simp only [Field.sees] at hQ hS
+    simp only [wfF, Bool.and_eq_true] at hw
+    simp only [decF, Node.kids, encF]
+    cases v with
+    | list items =>
+      simp only [canonF, Bool.and_eq_true] at hc
+      have hx : ∀ kv ∈ h.extra ++ ([] : List (Str × Str)), ¬ kv.1 = xmlnsKey := by simpa using extra_no_xmlns hw.2
+      have hall : ∀ k ∈ items.map (fun it => h.mk' [] (textNode it.getStr)), h.matches pns k = true := by
+        intro k hk
+        simp only [List.mem_map] at hk
+        obtain ⟨it, _, rfl⟩ := hk
+        exact head_matches_mk' h pns _ _ hw.1 hx
+      rw [List.filter_append, List.filter_append, filter_nil_of_all_false _ Q hQ,
+        filter_nil_of_all_false _ S hS, filter_self_of_all_true _ _ hall, List.nil_append, List.append_nil,
+        List.map_map]
+      have htxt : (items.map ((deepText) ∘ fun it => h.mk' [] (textNode it.getStr))) = items.map Val.getStr := by
+        apply List.map_congr_left
+        intro it _
+        simp [Function.comp, Head.mk', deepText_textNode]
+      rw [htxt, mkSet_of_sorted _ hc.2, map_str_getStr items hc.1]
+    | _ => simp [canonF] at hc
 theorem decFs_encFs : ∀ (fs : List Field) (pns t : Str) (P : List (Str × Str)) (Q : List Node) (vs : List Val),
     wfFs pns fs = true → canonFs fs vs = true →
     (∀ kv ∈ P, ∀ f ∈ fs, f.reads kv.1 = false) → (∀ k ∈ Q, ∀ f ∈ fs, f.sees pns k = false) →
@@ -1283,6 +1417,15 @@ theorem canonF_decF : ∀ (f : Field) (pw pns : Str) (x : Node), wfF pw f = true
     simp only [decF, canonF, List.all_eq_true, List.mem_map]
     rintro it ⟨k, _, rfl⟩
     exact canonFs_decFs fs h.ns _ _ hw.2
+  | .strSet h, pw, pns, x, _ => by
+    simp only [decF, canonF, Bool.and_eq_true, List.map_map]
+    refine ⟨by simp [Val.isStr], ?_⟩
+    have : (List.map (Val.getStr ∘ Val.str) (mkSet (List.map deepText (List.filter (h.matches pns) x.kids))))
+        = mkSet (List.map deepText (List.filter (h.matches pns) x.kids)) := by
+      have hid : (Val.getStr ∘ Val.str) = id := by funext z; rfl
+      rw [hid, List.map_id]
+    rw [this]
+    exact sortedB_mkSet _
 theorem canonFs_decFs : ∀ (fs : List Field) (pw pns : Str) (x : Node), wfFs pw fs = true →
     canonFs fs (decFs pns x fs) = true
   | [], _, pns, x, _ => by simp [decFs, canonFs]
@@ -1299,6 +1442,7 @@ theorem mandF_of_noMand : ∀ (f : Field) (v : Val), noMandF f = true → mandF 
   | .attrReadOnly .., _, _ => by simp [mandF]
   | .text _, _, _ => by simp [mandF]
   | .tagChild .., _, _ => by simp [mandF]
+  | .strSet .., _, _ => by simp [mandF]
   | .enumChild _ _ _ _ m, v, h => by
     simp only [noMandF, Bool.not_eq_true'] at h
     simp [mandF, h]
